@@ -171,6 +171,12 @@ class NativeTrace:
         self.events = []
         self.proc_target = {}
         self.stuck = any(l.startswith('stuck') for l in self.log)
+        # virtual processes still running when nothing can move any more (they exit only when the schedule says so)
+        self.stuck_running = []
+        for l in self.log:
+            m = re.match(r'stuck running_procs=\[(.*)\]', l)
+            if m and m.group(1).strip():
+                self.stuck_running = [int(x) for x in m.group(1).split(',')]
         self.main_done = any(l.startswith('main_done') for l in self.log)
         self.unreaped = []
         for l in self.log:
@@ -206,7 +212,7 @@ class NativeTrace:
                 self.unreaped = [self.proc_target.get(int(x)) for x in m.group(1).split(',')]
 
     def summary(self):
-        return {'rc': self.rc, 'stuck': self.stuck, 'main_done': self.main_done, 'events': [list(e) for e in self.events],
+        return {'rc': self.rc, 'stuck': self.stuck, 'stuck_with_running_processes': self.stuck_running, 'main_done': self.main_done, 'events': [list(e) for e in self.events],
                 'unreaped': self.unreaped, 'stderr_tail': self.stderr[-400:]}
 
 
